@@ -60,6 +60,31 @@ def mark_obligations(text: str) -> Tuple[str, List[str]]:
     return '/*@blk*/' + out + '/*@endblk*/', ids
 
 
+def fn_param_names(src, an):
+    """names of the non-self parameters of a fn, in order (`name: T`, `mut name: T`; other patterns give '_')"""
+    names = []
+    if an.params_open < 0: return names
+    q = an.params_open + 1; start = True; depth = 0
+    while q < an.params_close:
+        t = src.t(q)
+        if t.kind == 'punct' and t.text in ('(', '[', '{', '<'): depth += 1
+        elif t.kind == 'punct' and t.text in (')', ']', '}', '>') and not (t.text == '>' and src.is_p(q - 1, '-')): depth -= 1
+        elif t.kind == 'punct' and t.text == ',' and depth == 0: start = True; q += 1; continue
+        elif start and t.kind not in ('ws', 'comment'):
+            k = q
+            if src.is_p(k, '&'):
+                while k < an.params_close and not src.is_id(k, 'self') and not src.is_p(k, ','): k += 1
+            if src.is_id(k, 'mut') and src.is_id(k + 1, 'self'): k += 1
+            if src.is_id(k, 'self'):
+                pass
+            else:
+                k = q
+                if src.is_id(k, 'mut'): k += 1
+                names.append(src.t(k).text if src.is_id(k) and src.is_p(k + 1, ':') else '_')
+            start = False
+        q += 1
+    return names
+
 class FileSplicer:
     def __init__(self, root: str, fs: vspec.FileSpec, contracts_dir: str, report: dict):
         self.root = root
@@ -182,6 +207,16 @@ class FileSplicer:
                     k_ += 1
                 raise SpliceError('lost anchor: fn %s has no `let X = %s`' % (key, m.group(1)))
             subs = [vspec.Dir(x.word, x.args, re.sub(r'\$LET\(([^)]*)\)', _let_name, x.text or ''), x.line, x.subs, x.optional) for x in subs]
+        # `$A<k>` in a directive's text stands for the name of the k-th non-self parameter (1-based) of this fn: a contract written
+        # that way follows a renamed parameter
+        if any('$A' in (x.text or '') for x in subs):
+            pnames = fn_param_names(src, an)
+            def _arg_name(m):
+                k_ = int(m.group(1))
+                if k_ < 1 or k_ > len(pnames):
+                    raise SpliceError('lost anchor: fn %s has no parameter #%d' % (key, k_))
+                return pnames[k_ - 1]
+            subs = [vspec.Dir(x.word, x.args, re.sub(r'\$A(\d+)', _arg_name, x.text or ''), x.line, x.subs, x.optional) for x in subs]
         props = []
         implicit = None
         for s in subs:
